@@ -1,4 +1,5 @@
 import SqlizeModel.Driver.Pair
+import SqlizeModel.Impl.Hash
 
 namespace Sqlize.Driver
 open Sqlize Sqlize.Codec Sqlize.Spec
@@ -19,7 +20,8 @@ def scriptHandler : Handler
       (expectOutcome "load" (m.map (fun _ => "ok")) (o "err")).and <|
       (expectOutcome "state" (m.map stateDump) (o "state")).and <|
       (expectOutcome "dump" dump (o "dump")).and <|
-      (expectOutcome "dump-down" dumpDown (o "dumpDown"))
+      (expectOutcome "dump-down" dumpDown (o "dumpDown")).and <|
+      (expectOutcome "hash" (do let x ← m; let h ← x.hashValue g; pure (toString h)) (o "hash"))
     -- properties on the implementation's observations
     let props : Verdict :=
       match execAll true [] ss with
